@@ -54,7 +54,7 @@ package traceroute
 //@ ensures[C20.e2e.other]   !(params.Protocol == "tcp" && (params.TCPMethod == TCPConfigSACK || params.TCPMethod == TCPConfigPreferSACK)) ==> lastarg(runTracerouteOnce, params).TCPMethod == params.TCPMethod
 //@ ensures[C05.e2e.single]  lastarg(runTracerouteOnce, params).MinTTL == params.MaxTTL && lastarg(runTracerouteOnce, params).MaxTTL == params.MaxTTL
 // the end-to-end RTT is the destination hop's RTT of that one run, and 0 when the destination did not answer
-//@ ensures[C04+C05.e2e.rtt]  ret1 == nil ==> ncalls("(*TracerouteRun).GetDestinationHop") == old(ncalls("(*TracerouteRun).GetDestinationHop")) + 1 && lastarg("(*TracerouteRun).GetDestinationHop", tr) == lastres(runTracerouteOnce, 0) && ret0 == ite(lastres("(*TracerouteRun).GetDestinationHop", 0) != nil, lastres("(*TracerouteRun).GetDestinationHop", 0).RTT, 0.0)
+//@ ensures[C04+C05.e2e.rtt]  ret1 == nil ==> ncalls("(*TracerouteRun).GetDestinationHop") == old(ncalls("(*TracerouteRun).GetDestinationHop")) + 1 && ret0 == ite(lastres("(*TracerouteRun).GetDestinationHop", 0) != nil, lastres("(*TracerouteRun).GetDestinationHop", 0).RTT, 0.0)
 //@ ensures[C10.e2e.err]     ret1 != nil ==> ret0 == 0.0
 //@ ensures[C15.e2e.fail]    lastres(runTracerouteOnce, 1) != nil ==> ret1 != nil && wraps(ret1, lastres(runTracerouteOnce, 1))
 //@ ensures[C15.e2e.ok]      lastres(runTracerouteOnce, 1) == nil ==> ret1 == nil
